@@ -141,6 +141,471 @@ def check_long(case):
     return None
 
 
+# ---------------------------------------------------------------------------------------------------------------------
+# a buffer whose content changes between two calls (same object, or the same view object, passed again)
+
+_EDIT_KINDS = ['bytearray', 'bytearray-subclass-with-hash', 'memoryview-of-bytearray', 'readonly-memoryview-of-bytearray',
+               'readonly-memoryview-of-bytearray-subclass-with-hash', 'mmap', 'memoryview-of-mmap', 'readonly-memoryview-of-mmap',
+               'readonly-memoryview-of-mmap-slice', 'readonly-signed-char-memoryview-of-mmap', 'fresh-readonly-memoryview-of-mmap-each-call',
+               'memoryview-of-readonly-file-mapping-written-elsewhere', 'array-B', 'readonly-memoryview-of-array',
+               'ctypes-array', 'readonly-memoryview-of-ctypes-array']
+
+
+def _make_buffer(kind, data):
+    """-> (arg() giving the object to pass, poke(pos, value), snapshot() -> bytes, close()); one underlying store per case"""
+    import mmap
+    n = len(data)
+    if kind.startswith(('bytearray', 'memoryview-of-bytearray', 'readonly-memoryview-of-bytearray')):
+        if 'subclass' in kind:
+            class HashableBuffer(bytearray):            # hashable by identity like most objects, content still editable
+                __hash__ = object.__hash__
+            store = HashableBuffer(data)
+        else:
+            store = bytearray(data)
+        obj = store if not 'memoryview' in kind else memoryview(store).toreadonly() if kind.startswith('readonly') else memoryview(store)
+
+        def poke(i, v):
+            store[i] = v
+        return (lambda: obj), poke, (lambda: bytes(store)), (lambda: None)
+    if 'file-mapping' in kind:
+        import tempfile
+        f = tempfile.TemporaryFile()
+        f.write(data)
+        f.flush()
+        reader = mmap.mmap(f.fileno(), n, access=mmap.ACCESS_READ)
+        writer = mmap.mmap(f.fileno(), n, access=mmap.ACCESS_WRITE)
+        obj = memoryview(reader)
+
+        def poke(i, v):
+            writer[i] = v
+
+        def close():
+            for c in (obj.release, reader.close, writer.close, f.close):
+                try:
+                    c()
+                except Exception:
+                    pass
+        return (lambda: obj), poke, (lambda: bytes(writer[:])), close
+    if 'mmap' in kind:
+        off = 3 if 'slice' in kind else 0
+        store = mmap.mmap(-1, n + 2 * off)
+        store[off:off + n] = data
+        views = []
+        if kind == 'mmap':
+            get = lambda: store
+        elif kind.startswith('fresh'):
+            def get():
+                while views:
+                    try:
+                        views.pop().release()             # the previous view is gone: the next one may live at its address
+                    except Exception:
+                        pass
+                views.append(memoryview(store).toreadonly())
+                return views[-1]
+        else:
+            v = memoryview(store)
+            if kind.startswith('readonly'):
+                v = v.toreadonly()
+            if off:
+                v = v[off:off + n]
+            if 'signed-char' in kind:
+                v = v.cast('b')
+            views.append(v)
+            get = lambda: v
+
+        def poke(i, v):
+            store[off + i] = v
+
+        def close():
+            for v in views:
+                try:
+                    v.release()
+                except Exception:
+                    pass
+            try:
+                store.close()
+            except Exception:
+                pass                                    # somebody still holds a view: the mapping goes with the process
+        return get, poke, (lambda: bytes(store[off:off + n])), close
+    if 'ctypes' in kind:
+        import ctypes
+        store = (ctypes.c_ubyte * n)(*data)
+        obj = store if kind == 'ctypes-array' else memoryview(store).cast('B').toreadonly()
+    else:
+        import array
+        store = array.array('B', data)
+        obj = store if kind == 'array-B' else memoryview(store).toreadonly()
+
+    def poke(i, v):
+        store[i] = v
+    return (lambda: obj), poke, (lambda: bytes(store)), (lambda: None)
+
+
+def check_edited(case):
+    """the bytes behind ONE object are edited between calls: every call answers for the bytes the argument holds at that moment.
+    A buffer type the library refuses (it raises) is not a checksum error; a returned checksum has to be right."""
+    from pytoniq_core.crypto.crc import crc16, crc32c
+    data = bytes.fromhex(case['data'])
+    kind = case['kind']
+    # signature bucket = what holds the bytes (the view flavours over one kind of store share a root cause)
+    store = ('bytearray-subclass-with-hash' if 'subclass' in kind else 'file-mapping' if 'file-mapping' in kind else 'mmap' if 'mmap' in kind
+             else 'ctypes-array' if 'ctypes' in kind else 'array' if 'array-B' in kind or 'of-array' in kind else 'bytearray')
+    get, poke, snapshot, close = _make_buffer(kind, data)
+    try:
+        edits = [list(e) for e in case['edits']]
+        # ... and finally the original content again (an answer remembered for the FIRST content is right once more, one remembered
+        # for the object is not)
+        rounds = len(edits) + 2
+        for k in range(rounds):
+            now = snapshot()
+            e16 = refcrc.crc16_xmodem_fast(now).to_bytes(2, 'big')
+            r32 = refcrc.crc32c_fast(now)
+            for rep in range(2 if k == 0 else 1):      # the first content twice (whatever is remembered, is remembered by now)
+                ok, g = _try(crc16, get())
+                if ok and g != e16:
+                    return Fail(f'crc16/stale-after-in-place-change/{store}', f'{kind} over {data.hex()[:60]} after {k} edit(s) {edits[:k]}: '
+                                f'crc16={g!r}, CRC-16/XMODEM of its content {now.hex()[:60]} is {e16.hex()}')
+                for order in ('little', 'big'):
+                    ok, g = _try(crc32c, get(), order)
+                    if ok and g != r32.to_bytes(4, order):
+                        return Fail(f'crc32c/stale-after-in-place-change/{store}', f'{kind} over {data.hex()[:60]} after {k} edit(s) {edits[:k]}: '
+                                    f'crc32c(..,{order})={g!r}, CRC-32C of its content {now.hex()[:60]} is {r32.to_bytes(4, order).hex()}')
+            # short-lived equal copies (objects that die at once: the next one is usually built at the same address)
+            for mk in (lambda: bytes(bytearray(now)), lambda: memoryview(bytes(bytearray(now))), lambda: bytearray(now)):
+                if crc16(mk()) != e16 or crc32c(mk()) != r32.to_bytes(4, 'little'):
+                    return Fail('crc/short-lived-copy-differs', f'content {now.hex()[:60]} after {k} edit(s) of a {kind}')
+            if k < len(edits):
+                pos, x = edits[k]
+                pos %= len(data)
+                poke(pos, now[pos] ^ (x or 1))
+            elif k == len(edits):
+                for i, b in enumerate(data):
+                    if now[i] != b:
+                        poke(i, b)
+    finally:
+        close()
+    return None
+
+
+def strat_edited(tier):
+    lens = st.one_of(st.integers(1, 40), st.sampled_from([1, 2, 9, 34, 36, 64, 255, 256, 1024, 4096, 4100]))
+    body = st.one_of(st.builds(lambda n, b: bytes([b]) * n, lens, st.integers(0, 255)),
+                     lens.flatmap(lambda n: st.binary(min_size=n, max_size=n)))
+    edit = st.tuples(st.one_of(st.sampled_from([0, -1, 1]), st.integers(0, 5000)), st.sampled_from([1, 0x80, 0xFF, 0x55, 2])).map(list)
+    return st.builds(lambda d, k, e: {'data': d.hex(), 'kind': k, 'edits': e}, body, st.sampled_from(_EDIT_KINDS),
+                     st.lists(edit, min_size=1, max_size=3))
+
+
+def enum_edited(tier):
+    # every kind of buffer x a few sizes (friendly-address payload 34, a page, just past a page) x first / middle / last byte edited
+    for kind in _EDIT_KINDS:
+        for n in (1, 9, 34, 300, 4096, 4099):
+            for pos, x in ((0, 1), (n // 2, 0x80), (-1, 0xFF)):
+                yield {'data': (bytes(range(49, 58)) * (n // 9 + 1))[:n].hex(), 'kind': kind, 'edits': [[pos, x], [pos + 1, 1]]}
+
+
+# ---------------------------------------------------------------------------------------------------------------------
+# two DIFFERENT byte strings, one after the other, that agree in everything a shortcut might look at instead of the bytes
+
+_G32_IEEE, _G32C, _G16 = 0x104C11DB7, 0x11EDC6F41, 0x11021      # generator polynomials with their top bit
+
+
+def _pmul(a, b):
+    r = 0
+    while b:
+        if b & 1:
+            r ^= a
+        a <<= 1
+        b >>= 1
+    return r
+
+
+def _xor_poly(buf, bit_off, poly, reflected):
+    """xor the polynomial (highest power first) into the bit stream of buf starting at stream bit bit_off; the stream order of a
+    reflected CRC is least-significant bit of each byte first. Adding a multiple of a CRC's generator leaves that CRC unchanged."""
+    deg = poly.bit_length() - 1
+    for j in range(deg + 1):
+        if (poly >> (deg - j)) & 1:
+            p = bit_off + j
+            buf[p // 8] ^= (1 << (p % 8)) if reflected else (0x80 >> (p % 8))
+
+
+def _forge_crc32_tail(prefix, target):
+    """4 bytes t with zlib.crc32(prefix + t) == target (the map t -> crc is affine and invertible: solve it over GF(2))"""
+    import zlib
+    base = zlib.crc32(prefix)
+    f0 = zlib.crc32(b'\0\0\0\0', base)
+    basis = {}
+    for i in range(32):
+        c, m = zlib.crc32((1 << i).to_bytes(4, 'little'), base) ^ f0, 1 << i
+        while c:
+            h = c.bit_length() - 1
+            if h not in basis:
+                basis[h] = (c, m)
+                break
+            c, m = c ^ basis[h][0], m ^ basis[h][1]
+    t, sol = target ^ f0, 0
+    while t:
+        bv, bm = basis[t.bit_length() - 1]
+        t, sol = t ^ bv, sol ^ bm
+    return sol.to_bytes(4, 'little')
+
+
+_PAIR_KINDS = ['same-length-and-crc32-ieee', 'same-length-and-crc32-ieee-wide', 'same-crc32-ieee-other-length', 'same-length-and-adler32',
+               'same-length-and-crc16-xmodem', 'same-length-and-crc32c', 'same-length-and-crc32-ieee-and-adler32-sum', 'two-bytes-swapped',
+               'first-byte-differs', 'last-byte-differs', 'one-bit-in-the-middle']
+
+
+def _stream(n, seed):
+    import hashlib
+    out = bytearray()
+    c = 0
+    while len(out) < n:
+        out += hashlib.sha256(b'c18/pair/%d/%d' % (seed, c)).digest()
+        c += 1
+    return out[:n]
+
+
+def _make_pair(case):
+    import zlib
+    n, kind, seed = case['n'], case['kind'], case['seed']
+    a = _stream(n, seed)
+    at = {'start': 0, 'middle': max(0, n // 2 - 3), 'end': max(0, n - 8)}[case['at']]     # first byte of the touched window
+    b = bytearray(a)
+    q = 1 + 2 * (seed % 64) if 'wide' in kind else 1                                       # multiplier polynomial (odd => degree kept)
+    same = []
+    if kind.startswith('same-length-and-crc32-ieee'):
+        if 'adler32-sum' in kind:
+            # the generator pattern at two places (the difference is G * (x^k + 1), still a multiple of G); where it is applied first
+            # the touched bits are all clear, at the other place they are all set, so what one place adds to the byte sum the other
+            # one takes away
+            w = 5
+            p2 = at + w if at + 2 * w <= n else at - w
+            d = bytearray(w)
+            _xor_poly(d, 0, _G32_IEEE, True)
+            for i in range(w):
+                a[at + i] &= ~d[i] & 0xFF
+                a[p2 + i] |= d[i]
+            b = bytearray(a)
+            for i in range(w):
+                b[at + i] ^= d[i]
+                b[p2 + i] ^= d[i]
+            same = [('zlib.crc32', zlib.crc32), ('byte sum', lambda s: sum(s))]
+        else:
+            _xor_poly(b, 8 * at + seed % 8, _pmul(_G32_IEEE, q), True)
+            same = [('zlib.crc32', zlib.crc32)]
+    elif kind == 'same-crc32-ieee-other-length':
+        b = _stream(n + (seed % 9) - 4 + (1 if seed % 9 >= 4 else 0), seed + 1)
+        b[-4:] = _forge_crc32_tail(bytes(b[:-4]), zlib.crc32(a))
+        same = [('zlib.crc32', zlib.crc32)]
+    elif kind == 'same-length-and-adler32':
+        # +1, -2, +1 on three neighbouring bytes keeps the sum of the bytes and the sum of the running sums
+        a[at] &= 0x7F
+        a[at + 1] |= 0x80
+        a[at + 2] &= 0x7F
+        b = bytearray(a)
+        b[at] += 1
+        b[at + 1] -= 2
+        b[at + 2] += 1
+        same = [('zlib.adler32', zlib.adler32)]
+    elif kind == 'same-length-and-crc16-xmodem':
+        _xor_poly(b, 8 * at + seed % 8, _pmul(_G16, 1 + 2 * (seed % 8)), False)
+        same = [('CRC-16/XMODEM', refcrc.crc16_xmodem_fast)]
+    elif kind == 'same-length-and-crc32c':
+        _xor_poly(b, 8 * at + seed % 8, _pmul(_G32C, 1 + 2 * (seed % 8)), True)
+        same = [('CRC-32C', refcrc.crc32c_fast)]
+    elif kind == 'two-bytes-swapped':
+        j = at + 5
+        a[j] = a[at] ^ 0x5A
+        b = bytearray(a)
+        b[at], b[j] = a[j], a[at]
+        same = [('byte sum', lambda s: sum(s)), ('sorted bytes', lambda s: bytes(sorted(s)))]
+    elif kind == 'first-byte-differs':
+        b[0] ^= 1 << (seed % 8)
+    elif kind == 'last-byte-differs':
+        b[-1] ^= 1 << (seed % 8)
+    elif kind == 'one-bit-in-the-middle':
+        b[n // 2 + 1] ^= 1 << (seed % 8)
+    else:
+        raise ValueError(kind)
+    a, b = bytes(a), bytes(b)
+    if a == b or (len(a) == len(b)) != ('other-length' not in kind):
+        raise AssertionError(f'pair not built as designed (harness): {case}')
+    for name, f in same:
+        if f(a) != f(b):
+            raise AssertionError(f'pair does not agree in {name} (harness): {case}')
+    return a, b
+
+
+def check_pair(case):
+    from pytoniq_core.crypto.crc import crc16, crc32c
+    a, b = _make_pair(case)
+    exp = {}
+    for name, s in (('first', a), ('second', b)):
+        exp[name] = (refcrc.crc16_xmodem_fast(s).to_bytes(2, 'big'), refcrc.crc32c_fast(s))
+    what = f'{case["kind"]}: {len(a)} / {len(b)} bytes, window at {case["at"]}'
+    bucket = case['kind'].replace('-wide', '')
+    for name, s in (('first', a), ('second', b), ('first', a), ('second', b)):
+        e16, r32 = exp[name]
+        forms = [('bytes', s)] if len(s) > 20000 else [('bytes', s), ('memoryview', memoryview(s)), ('bytearray', bytearray(s)),
+                                                       ('equal copy', bytes(bytearray(s)))]
+        for fname, d in forms:
+            g = crc16(d)
+            if g != e16:
+                return Fail(f'crc16/answer-of-another-input/{bucket}', f'{what}: crc16({name} as {fname})={g.hex()} expected {e16.hex()}; '
+                            f'first={a.hex()[:48]}.. second={b.hex()[:48]}..')
+            for order in ('little', 'big'):
+                g = crc32c(d, order)
+                if g != r32.to_bytes(4, order):
+                    return Fail(f'crc32c/answer-of-another-input/{bucket}', f'{what}: crc32c({name} as {fname},{order})={g.hex()} expected '
+                                f'{r32.to_bytes(4, order).hex()}; first={a.hex()[:48]}.. second={b.hex()[:48]}..')
+            if crc32c(d) != r32.to_bytes(4, 'little'):
+                return Fail(f'crc32c/answer-of-another-input/{bucket}', f'{what}: crc32c({name} as {fname}) default order')
+    return None
+
+
+def enum_pairs(tier):
+    sizes = [16, 34, 36, 100, 1000, 4096, 5000, 8193, 70000] + ([65536, 300000] if tier != 'quick' else [])
+    seed = 0
+    for n in sizes:
+        for kind in _PAIR_KINDS:
+            if n >= 70000 and kind not in ('same-length-and-crc32-ieee', 'same-crc32-ieee-other-length', 'same-length-and-adler32',
+                                           'one-bit-in-the-middle'):
+                continue
+            for at in ('start', 'middle', 'end'):
+                if at != 'middle' and (kind.endswith('differs') or kind.startswith('one-bit') or 'other-length' in kind):
+                    continue
+                for rep in range(2 if n < 5000 else 1):
+                    seed += 1
+                    yield {'n': n, 'kind': kind, 'at': at, 'seed': seed}
+
+
+# ---------------------------------------------------------------------------------------------------------------------
+# the library's own users of the checksums ran earlier in the process (histories as plain data)
+
+def _history_step(step):
+    """runs one ordinary library call that computes checksums internally; -> [(label, byte string)] the call was about.
+    Whether that call succeeds is not this property's business."""
+    import base64
+    from harness.core import call, describe
+    op = step['op']
+    out = []
+    if op == 'crc':
+        return [('plain string', bytes.fromhex(step['data']))]
+    if op in ('to_boc', 'from_boc'):
+        from harness.gen import dag
+        from harness.ref import refboc
+        from pytoniq_core.boc.cell import Cell
+        rcells = dag.build_ref(step['spec'])
+        if op == 'to_boc':
+            root = dag.lib_from_ref(rcells)[-1]
+            ok, boc = call(root.to_boc, has_idx=step['idx'], hash_crc32=step['crc'], has_cache_bits=step['cache'])
+            if not ok or not isinstance(boc, (bytes, bytearray)) or len(boc) < 8:
+                return []
+            out = [('bag returned by to_boc', boc), ('that bag without its last 4 bytes', bytes(boc[:-4])), ('last 4 bytes of that bag', bytes(boc[-4:])),
+                   ('that bag without its magic', bytes(boc[4:]))]
+            if step.get('read_back'):
+                call(Cell.one_from_boc, boc)
+            return out
+        good = refboc.encode([rcells[-1]], has_idx=step['idx'], has_crc=True)
+        data = bytearray(good)
+        if step['damage'] is not None:
+            p = step['damage'] % (8 * len(data))
+            data[p // 8] ^= 0x80 >> (p % 8)
+        data = bytes(data)
+        arg = {'bytes': data, 'hex': data.hex(), 'b64': base64.b64encode(data).decode()}[step['form']]
+        ok, res = call(Cell.from_boc, arg)
+        if ok:
+            describe(*res[:1])
+        return [('bag given to from_boc', data), ('that bag without its last 4 bytes', data[:-4]), ('last 4 bytes of that bag', data[-4:]),
+                ('the undamaged bag', good), ('the undamaged bag without its last 4 bytes', good[:-4])]
+    if op in ('addr_str', 'addr_parse'):
+        from harness.ref import refaddr
+        from pytoniq_core.boc.address import Address
+        acc = bytes.fromhex(step['hash'])
+        s = refaddr.friendly(step['wc'], acc, step['bounceable'], step['test_only'], step['url_safe'])
+        raw = base64.urlsafe_b64decode(s) if step['url_safe'] else base64.b64decode(s)
+        if op == 'addr_str':
+            ok, addr = call(Address, (step['wc'], acc))
+            if ok:
+                call(addr.to_str, True, step['url_safe'], step['bounceable'], step['test_only'])
+                describe(addr)
+                call(hash, addr)
+            return [('friendly address decoded', raw), ('its 34 checksummed bytes', raw[:34]), ('its 2 checksum bytes', raw[34:]),
+                    ('friendly address text', s.encode())]
+        bad = bytearray(raw)
+        if step['damage'] is not None:
+            p = step['damage'] % (8 * 36)
+            bad[p // 8] ^= 0x80 >> (p % 8)
+        bad = bytes(bad)
+        text = (base64.urlsafe_b64encode if step['url_safe'] else base64.b64encode)(bad).decode()
+        ok, addr = call(Address, text)
+        if ok:
+            describe(addr)
+        return [('friendly address decoded', bad), ('its 34 checksummed bytes', bad[:34]), ('its 2 checksum bytes', bad[34:]),
+                ('friendly address text', text.encode()), ('the undamaged 34 bytes', raw[:34])]
+    raise ValueError(op)
+
+
+def _probe(strings, when):
+    from pytoniq_core.crypto.crc import crc16, crc32c
+    for label, s in strings:
+        r16, r32 = refcrc.crc16_xmodem_fast(s), refcrc.crc32c_fast(s)
+        # the string itself and the string followed by its own checksum (a reader that verifies a trailer computes exactly these)
+        todo = [(label, s, r16, r32)]
+        for tail, tname in ((r32.to_bytes(4, 'little'), 'CRC-32C'), (r16.to_bytes(2, 'big'), 'CRC-16')):
+            t = bytes(s) + tail
+            todo.append((f'{label} + its own {tname}', t, refcrc.crc16_xmodem_fast(t), refcrc.crc32c_fast(t)))
+        for lab, x, e16, e32 in todo:
+            for fname, d in (('the object itself', x), ('equal bytes', bytes(bytearray(x))), ('memoryview', memoryview(x)), ('bytearray', bytearray(x))):
+                g = crc16(d)
+                if g != e16.to_bytes(2, 'big'):
+                    return Fail('crc16/wrong-after-other-library-calls', f'{when}: crc16({lab}, {fname}; {bytes(x).hex()[:80]})={g!r} expected {e16:04x}')
+                for order in ('little', 'big'):
+                    g = crc32c(d, order)
+                    if g != e32.to_bytes(4, order):
+                        return Fail('crc32c/wrong-after-other-library-calls', f'{when}: crc32c({lab}, {fname}; {bytes(x).hex()[:80]}, {order})={g!r} '
+                                    f'expected {e32.to_bytes(4, order).hex()}')
+    return None
+
+
+def check_history(case):
+    """program = list of ordinary library calls that use the checksums internally (to_boc with a checksum, from_boc of a sound or a
+    damaged bag, friendly address rendered / parsed / printed); after every step and again at the end, the checksum functions are
+    asked about the byte strings those calls were about - the answers are functions of the bytes alone"""
+    seen = []
+    for k, step in enumerate(case['steps']):
+        new = _history_step(step)
+        f = _probe(new, f'after step {k} ({step["op"]})')
+        if f:
+            return f
+        seen += new
+    return _probe(seen, 'at the end of the program') if len(case['steps']) > 1 else None
+
+
+def strat_history(tier):
+    from harness.gen import dag
+    spec = dag.st_ord_dag(max_nodes=4, max_len=72)
+    dmg = st.one_of(st.none(), st.integers(0, 4000), st.sampled_from([-1, -8, -9, -32, -33]))
+    acc = st.one_of(st.binary(min_size=32, max_size=32), st.sampled_from([b'\0' * 32, b'\xff' * 32]))
+    wc = st.one_of(st.sampled_from([0, -1]), st.integers(-128, 127))
+    addr = dict(wc=wc, hash=acc.map(bytes.hex), bounceable=st.booleans(), test_only=st.booleans(), url_safe=st.booleans())
+    step = st.one_of(
+        st.fixed_dictionaries(dict(op=st.just('to_boc'), spec=spec, crc=st.sampled_from([True, True, True, False]), idx=st.booleans(),
+                                   cache=st.booleans(), read_back=st.booleans())),
+        st.fixed_dictionaries(dict(op=st.just('from_boc'), spec=spec, idx=st.booleans(), damage=dmg, form=st.sampled_from(['bytes', 'hex', 'b64']))),
+        st.fixed_dictionaries(dict(op=st.just('addr_str'), **addr)),
+        st.fixed_dictionaries(dict(op=st.just('addr_parse'), damage=st.one_of(st.none(), st.integers(0, 287)), **addr)),
+        st.fixed_dictionaries(dict(op=st.just('crc'), data=st.binary(min_size=0, max_size=40).map(bytes.hex))),
+    )
+    return st.lists(step, min_size=1, max_size=4).map(lambda s: {'steps': s})
+
+
+def classify_history(case):
+    for s in case['steps']:
+        yield s['op'] + ('+crc' if s.get('crc') else '') + ('/damaged' if s.get('damage') is not None else '')
+
+
 def enum_long(tier):
     sizes = [4095, 4096, 4097, 8191, 8192, 8193, 16384, 32767, 32768, 32769, 65535, 65536, 65537, 131072, 262143, 262144, 262145,
              524288, 1048575, 1048576, 1048577,
@@ -201,4 +666,16 @@ SUBCHECKS = [
         note='4095..65537 bytes (thorough: up to 1 MiB + 1) around block-size boundaries; bytes and bytearray'),
     Sub('random', check, strategy=strat, classify=classify, nontrivial=lambda c: len(c['data']) >= 2,
         n=(3000, 200000), shards=(8, 32)),
+    Sub('edited-in-place-grid', check_edited, enum=enum_edited, classify=lambda c: [c['kind']], shards=(8, 16),
+        note='one buffer object (16 kinds: bytearray, mmap, array, ctypes array, read-only / sliced / signed views of them, a file '
+             'mapping written through another handle) asked again after each in-place edit and after the original content is restored'),
+    Sub('edited-in-place', check_edited, strategy=strat_edited, classify=lambda c: [c['kind'], 'edits=%d' % len(c['edits'])],
+        n=(150, 20000), shards=(8, 16)),
+    Sub('designed-pairs', check_pair, enum=enum_pairs, classify=lambda c: [c['kind'], 'n=%d' % c['n']], shards=(8, 16),
+        note='two different strings asked one after the other (first, second, first, second) that agree in length and in another digest '
+             '(IEEE CRC-32, Adler-32, the OTHER of the two checksums, byte sum, multiset of bytes, first/last kilobytes) or differ in '
+             'length with equal IEEE CRC-32'),
+    Sub('after-other-entry-points', check_history, strategy=strat_history, classify=classify_history,
+        nontrivial=lambda c: any(s['op'] != 'crc' for s in c['steps']), n=(200, 20000), shards=(8, 16),
+        note='programs of 1..4 ordinary library calls that use the checksums internally, then the checksum functions on the strings involved'),
 ]
